@@ -586,6 +586,71 @@ Proof.
       specialize (IX xmax XU). unfold vy_, r0, r1 in *. lra.
 Qed.
 
+(* the accepted minimum flankRadius = (baseRadius + distance + noseRadius) / 2: the flank centre is (0, r0) on the
+   axis between the two circle centres, both limiting directions are vertical (-pi/2 and pi/2), every query
+   direction (x >= 0) lies between them, so the cam is the flank circle; the box is [-F, F] x [-B, D + N] *)
+Lemma Ratan2_right_range y x : 0 <= x -> - (PI / 2) <= Ratan2 y x <= PI / 2.
+Proof.
+  intros Hx. pose proof PI_RGT_0 as Hpi. unfold Ratan2.
+  destruct (Rlt_dec 0 x) as [H|H]; [pose proof (atan_bound (y / x)); lra|].
+  destruct (Rlt_dec x 0) as [H'|H']; [lra|].
+  destruct (Rlt_dec 0 y); [lra|]. destruct (Rlt_dec y 0); lra.
+Qed.
+
+Theorem threearccam_min_enc distance baseRadius noseRadius o :
+  0 < distance -> 0 <= baseRadius -> 0 <= noseRadius -> Rabs (baseRadius - noseRadius) < distance ->
+  @k_threearccam ROps distance baseRadius noseRadius ((baseRadius + distance + noseRadius) / 2) = Some o -> enc2 o.
+Proof.
+  intros HD HB HN HBN H. apply Rabs_lt_inv in HBN. unfold k_threearccam in H.
+  destruct (oltb ROps _ _) eqn:K in H; [discriminate|]. clear K. apply some_inj2 in H. subst o.
+  set (F := (baseRadius + distance + noseRadius) / 2) in *.
+  set (r0 := F - baseRadius). assert (H0 : 0 < r0) by (unfold r0, F; lra).
+  assert (Efc : @threearc_center ROps distance baseRadius noseRadius F = mkV2 0 r0).
+  { unfold threearc_center. cbv zeta. ropen. rewrite two_eq. fold r0.
+    assert (Ey : (r0 * r0 - (F - noseRadius) * (F - noseRadius) + distance * distance) / (2 * distance) = r0)
+      by (unfold r0, F; field; lra).
+    rewrite Ey. replace (r0 * r0 - r0 * r0) with 0 by ring. rewrite sqrt_0, Ropp_0. reflexivity. }
+  rewrite Efc. unfold v2sub; cbn [vx vy]. ropen. change (oatan2 ROps) with Ratan2.
+  pose proof PI_RGT_0 as Hpi.
+  assert (EB : Ratan2 (0 - r0) (0 - 0) = - PI / 2).
+  { unfold Ratan2. replace (0 - 0) with 0 by ring. destruct (Rlt_dec 0 0) as [G|_]; [lra|].
+    destruct (Rlt_dec 0 (0 - r0)) as [G|_]; [lra|]. destruct (Rlt_dec (0 - r0) 0) as [_|G]; [reflexivity | lra]. }
+  assert (EN : Ratan2 (distance - r0) (0 - 0) = PI / 2).
+  { unfold Ratan2. replace (0 - 0) with 0 by ring. destruct (Rlt_dec 0 0) as [G|_]; [lra|].
+    destruct (Rlt_dec 0 (distance - r0)) as [_|G]; [reflexivity | unfold r0, F in G; lra]. }
+  rewrite EB, EN.
+  assert (C3 : Rltb (- PI / 2) 0 = true) by (apply Rltb_true; lra).
+  assert (C4 : Rltb 0 (PI / 2) = true) by (apply Rltb_true; lra). rewrite C3, C4. cbn [andb].
+  set (xm0 := Rmax baseRadius noseRadius). set (xmax := Rmax xm0 (0 + F)).
+  assert (Hxm : F <= xmax) by (unfold xmax; eapply Rle_trans; [|apply Rmax_r]; lra).
+  assert (HF0 : 0 < F) by (unfold F; lra).
+  split; cbn [bb2 ev2].
+  - unfold ordered2; cbn [b2min b2max vx vy]. lra.
+  - intros [px py]. unfold threearc_ev. cbn [vx vy]. ropen. change (oatan2 ROps) with Ratan2.
+    unfold v2len, v2len2, v2sub, v2dot; cbn [vx vy]. ropen.
+    set (X := Rabs px). assert (HX : 0 <= X) by apply Rabs_pos.
+    pose proof (Ratan2_right_range (py - r0) (X - 0) ltac:(lra)) as [T1 T2].
+    set (t := Ratan2 (py - r0) (X - 0)) in *.
+    assert (C1 : Rltb t (- PI / 2) = false) by (apply Rltb_false; lra).
+    assert (C2 : Rltb (PI / 2) t = false) by (apply Rltb_false; lra). rewrite C1, C2. intros Hneg.
+    destruct (disk_box X py 0 r0 F Hneg) as [Bx By].
+    pose proof (Rabs_le_inv px xmax ltac:(fold X; lra)). unfold in_box2; cbn [b2min b2max vx vy]. unfold r0, F in *. lra.
+Qed.
+
+(* every flank radius ThreeArcCam2D accepts *)
+Theorem threearccam_enc_all distance baseRadius noseRadius flankRadius o :
+  0 < distance -> 0 <= baseRadius -> 0 <= noseRadius -> Rabs (baseRadius - noseRadius) < distance ->
+  @k_threearccam ROps distance baseRadius noseRadius flankRadius = Some o -> enc2 o.
+Proof.
+  intros HD HB HN HBN H.
+  assert (HF : (baseRadius + distance + noseRadius) / 2 <= flankRadius).
+  { unfold k_threearccam in H. ropen. rewrite two_eq in H.
+    destruct (Rltb flankRadius ((baseRadius + distance + noseRadius) / 2)) eqn:K; [discriminate | bfalse; exact K]. }
+  destruct HF as [HF|HF].
+  - exact (threearccam_enc _ _ _ _ o HD HB HN HBN HF H).
+  - subst flankRadius. exact (threearccam_min_enc _ _ _ o HD HB HN HBN H).
+Qed.
+
 (* ------------------------------------------------------------ GearRack2D
    Evaluate = max (tooth (|sawtooth x pitch|, y)) (|x| - length): a negative value puts |x| below the
    half length and (|sawtooth x|, y) into the box of the tooth polygon, so y lies in the y range of
@@ -634,7 +699,7 @@ Definition cam_ok (d b n : R) : Prop := 0 < d /\ 0 <= b /\ 0 <= n /\ Rabs (b - n
 Definition prim2_wf (p : Prim2 ROps) : Prop :=
   match p with
   | PFlatFlankCam d b n => cam_ok d b n
-  | PThreeArcCam d b n f => cam_ok d b n /\ (b + d + n) / 2 < f
+  | PThreeArcCam d b n _ => cam_ok d b n
   | PFlange1 d c s => cam_ok d c s
   | PArcSpiral _ _ _ _ d => 0 <= d
   end.
@@ -642,7 +707,7 @@ Theorem prim2_enc p o : prim2_wf p -> @k_prim2 ROps p = Some o -> enc2 o.
 Proof.
   destruct p; cbn [prim2_wf k_prim2]; unfold cam_ok.
   - intros (H1 & H2 & H3 & H4). apply flatflankcam_enc; assumption.
-  - intros ((H1 & H2 & H3 & H4) & H5). apply threearccam_enc; assumption.
+  - intros (H1 & H2 & H3 & H4). apply threearccam_enc_all; assumption.
   - intros (H1 & H2 & H3 & H4). apply flange1_enc; assumption.
   - intros H. apply arcspiral_enc; assumption.
 Qed.
@@ -651,13 +716,14 @@ Qed.
 Definition prim2_builds (p : Prim2 ROps) : Prop :=
   match p with
   | PArcSpiral a _ s e _ => a <> 0 /\ s <> e
+  | PThreeArcCam d b n f => (b + d + n) / 2 <= f
   | _ => True
   end.
 Lemma prim2_builds_some p : prim2_wf p -> prim2_builds p -> exists o, @k_prim2 ROps p = Some o.
 Proof.
   destruct p; cbn [prim2_wf prim2_builds k_prim2]; intros W Hb.
   - unfold k_flatflankcam. eexists; reflexivity.
-  - unfold k_threearccam. destruct W as [_ W]. ropen. rewrite two_eq.
+  - unfold k_threearccam. ropen. rewrite two_eq.
     destruct (Rltb flankRadius ((baseRadius + distance + noseRadius) / 2)) eqn:C; bfalse; [lra|]. eexists; reflexivity.
   - unfold k_flange1. eexists; reflexivity.
   - unfold k_arcspiral. destruct Hb as [Ha Hs]. ropen.
